@@ -395,12 +395,17 @@ Fixpoint race_free (st : state) (ls : list label) : bool :=
 Inductive ev :=
 | ECall (c k : nat) (o : outcome)
 | EResume (t : nat)
+| EResumeSave (t : nat)  (* the loader of t returns a value; t runs save up to (not including) gen.size.Add: it is
+                            parked at the schedule point verifhook.At("cache.save.after-unlock"); waiters wake up *)
+| EAdd (t : nat)         (* t, parked there, does its gen.size.Add and returns *)
 | ENew
 | ERelease (c : nat)
 | ERotate
 | ECleanup            (* Cleaner.Cleanup: LCleanBegin, then Cache.Cleanup of every bucket *)
 | EGcGens             (* CleanEmptyGenerations *)
-| ERelBuckets.        (* ReleaseBuckets *)
+| ERelBuckets         (* ReleaseBuckets *)
+| ERelBucketsNew.     (* ReleaseBuckets with a NewCache (AddBucket) landing between its unlocked scan and its
+                         locked removal: LRelCollect; LNewCache; LRelRemove *)
 
 Fixpoint run_thread (fuel : nat) (st : state) (t : nat) : option state :=
   match thread_pc st t with
@@ -468,6 +473,27 @@ Definition exec_ev (st : state) (e : ev) : option (state * list Z) :=
           end
       | _ => None
       end
+  | EResumeSave t =>
+      match thread_pc st t with
+      | Some (PLoad e) =>
+          match step st (LStep t) with
+          | Some st1 => match thread_pc st1 t with
+                        | Some (PAdd _ _ _) =>
+                            match wake_all (waiters_of e (threads st1) 0%nat) st1 with
+                            | Some st2 => Some (st2, [])
+                            | None => None
+                            end
+                        | _ => None
+                        end
+          | None => None
+          end
+      | _ => None
+      end
+  | EAdd t =>
+      match thread_pc st t with
+      | Some (PAdd _ _ _) => match step st (LStep t) with Some st' => Some (st', []) | None => None end
+      | _ => None
+      end
   | ENew => match step st LNewCache with Some st' => Some (st', []) | None => None end
   | ERelease c => match step st (LRelease c) with Some st' => Some (st', []) | None => None end
   | ERotate => match step st LRotate with Some st' => Some (st', ret st') | None => None end
@@ -484,6 +510,17 @@ Definition exec_ev (st : state) (e : ev) : option (state * list Z) :=
       | None => None
       end
   | EGcGens => match step st LGcGens with Some st' => Some (st', ret st') | None => None end
+  | ERelBucketsNew =>
+      match step st LRelCollect with
+      | Some st1 => match step st1 LNewCache with
+                    | Some st2 => match pendrel st2 with
+                                  | Some _ => match step st2 LRelRemove with Some st3 => Some (st3, ret st3) | None => None end
+                                  | None => Some (st2, ret st2)
+                                  end
+                    | None => None
+                    end
+      | None => None
+      end
   | ERelBuckets =>
       match step st LRelCollect with
       | Some st1 => match pendrel st1 with
